@@ -13,7 +13,11 @@ import (
 	"net/http"
 	"net/textproto"
 	"strings"
+	"time"
 )
+
+// HandshakeTimeout is the longest a client waits for the server to complete the session handshake
+const HandshakeTimeout = 30 * time.Second
 
 // ClientConnection represents a client to the socketace server. It announces the client to the server,
 // checks the server and establishes the connection.
@@ -40,6 +44,15 @@ func NewClientConnection(c net.Conn, manager cert.TlsConfig, secure bool, host s
 		connection.securityTech = SecurityUnderlying
 	} else {
 		connection.securityTech = SecurityNone
+	}
+
+	// Bound the time the whole handshake (including a StartTLS upgrade) may take, so that an
+	// upstream which accepts the connection but never answers is given up and the next one
+	// can be tried. The deadline is lifted again once the session is established.
+	if err := c.SetDeadline(time.Now().Add(HandshakeTimeout)); err == nil {
+		defer func() {
+			_ = c.SetDeadline(time.Time{})
+		}()
 	}
 
 	log.Debugf("[Client] SocketAce handshake...")
